@@ -8,7 +8,7 @@
 (* <= 3 files; four families of edit histories along the edges (class     *)
 (* additions; comment additions that conflict when two meet on a path;     *)
 (* inner classes whose names are contracted in the diffs and extended in   *)
-(* the answer; members added below a class that has no named name).  A family with colliding names (a and a~b) is explored for *)
+(* the answer; members added below a class that has no named name, which the edges leaving version a name).  A family with colliding names (a and a~b) is explored for *)
 (* totality only.                                                          *)
 (***************************************************************************)
 EXTENDS VersionGraph, Json, SequencesExt
@@ -40,8 +40,9 @@ EdgeDiff(e, h) ==
       [] h = 2 -> D!DRoot(D!None, D!None, AddClass("N" \o id, "n" \o id) @@
                           ("c K" :> D!DNode(D!DKey("c", "K", "", 0), D!None, D!Add(<<"doc " \o id>>), <<>>)))
       [] h = 0 -> D!DRoot(D!None, D!None, <<>>)                           \* graph-only family: empty diffs
-      [] h = 4 -> D!DRoot(D!None, D!None,                              \* a member added below the class that has no named name
-                          ("c U" :> D!DNode(D!DKey("c", "U", "", 0), D!None, D!None,
+      [] h = 4 -> D!DRoot(D!None, D!None,                              \* a member added below the class that has no named name;
+                          ("c U" :> D!DNode(D!DKey("c", "U", "", 0),   \* an edge that leaves version a also gives that class its name (it keeps its members)
+                               IF e[1] = "a" THEN D!Add("u" \o id) ELSE D!None, D!None,
                                (("f n" \o id \o " I") :> D!DNode(D!DKey("f", "n" \o id, "I", 0), D!Add("x" \o id), D!None, <<>>)))))
       [] h = 3 -> D!DRoot(D!None, D!None, AddClass("K$I$" \o id, "in" \o id) @@
                           ("c K$I" :> D!DNode(D!DKey("c", "K$I", "", 0), D!Edit("i", "j" \o id), D!None, <<>>)))
